@@ -515,6 +515,24 @@ def Get_KeyNameType(text):
     return text.split(":")
 
 
+def SplitOutsideQuotes(text, separator):
+    parts = []
+    current = ""
+    in_text = False
+    previous = ''
+    for c in text:
+        if c == '"' and previous != '\\':
+            in_text = not in_text
+        previous = c
+        if c == separator and not in_text:
+            parts.append(current)
+            current = ""
+        else:
+            current += c
+    parts.append(current)
+    return parts
+
+
 def Get_ValuesFromOutside(outside, verbose=False):
     '''
     During recursion of 'ParseBLOB_Recursive', a outside and a inside ({}) (another Blob) is built up.
@@ -531,7 +549,7 @@ def Get_ValuesFromOutside(outside, verbose=False):
         res["name"] = mass_replace(all[1]).strip()
         res["type"] = mass_replace(all[2]).strip()
     else:
-        all = outside.split(";")
+        all = SplitOutsideQuotes(outside, ";")
         for a in all:
             if a.find("=") > -1:
                 b = a.split("=")
@@ -576,10 +594,17 @@ def ParseBLOB_Recursive(string, index = 0):
     children = {}
     result = {}
 
+    in_text = False
+    previous = ''
     while index_PBR < len(string):
         c = string[index_PBR]
         index_PBR = index_PBR+1
-        if c == '{':
+        if c == '"' and previous != '\\':
+            in_text = not in_text
+        previous = c
+        if in_text:
+            outside += c
+        elif c == '{':
             child = ParseBLOB_Recursive(string, index_PBR)
             children["child_" + str(len(children))] = child
         elif c == '}':
